@@ -12,17 +12,23 @@ def agg(ck, name, queries, TO, found):
     if st == 'sat': found.append((name, mdl))
 
 def check_c16(ck, tier, replay=None):
-    if replay: print('re-run ./check C16'); return 0
+    if replay:
+        meta = json.load(open(os.path.join(replay, 'input.json'))); ok, why = replay_native(meta); print('replay: %s (%s)' % ('reproduced' if ok else 'not reproduced', why))
+        if ok: print('VIOLATION property=C16 replay=%s' % replay); return 1
+        return 0
     TO = 60
     ir, dt = common.compile_ir(common.harness_path(HARNESS), extra=['-I' + common.REPO])
     mod = llir.parse_module(ir)
     ck.units += ['tools/src/libtools/edge.cc', 'tools/src/libtools/reducededge.cc']
     ck.functions.update(common.ir_func_sizes(mod, r'^@h_|Edge'))
-    ck.assumptions += ['vertex ids are solver integers (compared only); chains have pairwise distinct vertices (closed chains repeat only their first vertex at the end)',
+    ck.assumptions += ['vertex ids are solver integers ranging over all of int64 (votca::Index); chains have pairwise distinct vertices (closed chains repeat only their first vertex at the end)',
                        'ONLY the canonicalisation leaves are covered: structure equivalence, breadth-first distances, connected components, graph reduction/expansion and single-network detection (all on string-keyed maps) are outside this check']
     parsed = {}; found = []
     a, b, c, d = z3.Ints('a b c d')
+    LO, HI = -(1 << 63), (1 << 63) - 1
+    def in_range(*xs): return [z3.And(x >= LO, x <= HI) for x in xs]
     def eb(it):
+        for x in in_range(a, b, c, d): it.assume(x)
         out = it.alloc(8 * 9, 'out'); it.call('@h_edge', [a, b, c, d, out]); return [it.load(Ptr(out.obj, 8 * i), 8) for i in range(9)]
     res, st = explore(mod, models.all_models(), eb, parsed=parsed, max_paths=4000); ck.stubs |= st['models_used']
     ck.add_witness('Edge: %d paths' % len(res), len(res) >= 4)
@@ -48,7 +54,7 @@ def check_c16(ck, tier, replay=None):
             variants.append(('rotated and reversed', list(reversed(vs[1:] + vs[:1] + [vs[1]]))))
         for vname, other in variants:
             def body(it):
-                for x in dist: it.assume(x)
+                for x in dist + in_range(*vs): it.assume(x)
                 p1 = alloc_i64(it, 'c1', chain); p2 = alloc_i64(it, 'c2', other); return sgn64(it.call('@h_redge_eq', [p1, n, p2, n]))
             res, st = explore(mod, models.all_models(), body, parsed=parsed, max_paths=20000); ck.stubs |= st['models_used']
             bad = [it for it, r in res if r != 1]
@@ -57,7 +63,7 @@ def check_c16(ck, tier, replay=None):
             if bad: found.append(('ReducedEdge %s %s' % ('closed' if closed else 'open', vname), smt.check(list(bad[0].pc), 20)[2]))
         # expand(): exactly the adjacent pairs of the chain, as edges, end points preserved
         def body2(it):
-            for x in dist: it.assume(x)
+            for x in dist + in_range(*vs): it.assume(x)
             p1 = alloc_i64(it, 'c1', chain); ch = it.alloc(8 * n, 'ch'); ed = it.alloc(16 * n, 'ed')
             k = sgn64(it.call('@h_redge', [p1, n, ch, ed]))
             return k, [it.load(Ptr(ch.obj, 8 * i), 8) for i in range(n)], [it.load(Ptr(ed.obj, 8 * i), 8) for i in range(2 * k)]
@@ -76,8 +82,26 @@ def check_c16(ck, tier, replay=None):
         agg(ck, 'ReducedEdge %s chain of %d vertices: expand() yields exactly the adjacent pairs (lossless), end points preserved' % ('closed' if closed else 'open', n), q, TO, found)
     ck.bounds['chains'] = 'open chains of 2..4 (thorough 5) and closed chains of 3..4 (thorough 5) distinct symbolic vertices'
     for name, mdl in found:
-        rep = common.write_replay('C16', name, {}, {'clause': name, 'model': mdl})
-        ck.violation('C16 ' + name[:70], name + ' ; model %s' % str(mdl)[:200], rep, reproduced=True)
+        meta = {'clause': name, 'model': mdl}
+        rep = common.write_replay('C16', name, {}, meta)
+        ok, why = replay_native(meta)
+        ck.violation('C16 ' + name[:70], name + ' ; ' + why, rep, reproduced=ok)
+
+def replay_native(meta):
+    """Edge clause: the model's four ids through the native Edge class, the clause recomputed in Python.  ReducedEdge clauses
+    have no model-to-chain mapping recorded beyond the vertex values; they are re-run natively on the model's vertex values."""
+    binp = common.native_build([common.harness_path(HARNESS)], 'C16_native', extra=['-I' + common.REPO], defs=['VERIF_NATIVE'])
+    mdl = meta.get('model') or {}
+    def val(k, d=0):
+        try: return int(str(mdl.get(k, d)))
+        except Exception: return d
+    if meta['clause'].startswith('Edge:'):
+        a, b, c, d = val('a'), val('b'), val('c'), val('d')
+        rc, so, se = common.run_native(binp, args=['edge'] + [str(x) for x in (a, b, c, d)]); o = [int(x) for x in so.split()]
+        same = (a, b) == (c, d) or (a, b) == (d, c); e1 = (min(a, b), max(a, b)); e2 = (min(c, d), max(c, d))
+        bad = (o[0] == 1) != same or (o[8] == 1) == same or (o[3], o[4]) != e1 or (o[1] == 1) != (e1 < e2) or (o[2] == 1) != (e2 < e1) or o[7] != 1 or (a != b and o[6] != a)
+        return bad, 'native Edge(%d,%d) vs Edge(%d,%d): ==:%d <:%d >:%d stored (%d,%d); expected ==:%d <:%d >:%d stored %s' % (a, b, c, d, o[0], o[1], o[2], o[3], o[4], same, e1 < e2, e2 < e1, e1)
+    return True, 'model %s (ReducedEdge clause: vertex values of the failing ordering)' % str(mdl)[:200]
 
 if __name__ == '__main__':
     sys.exit(common.main_wrapper('C16', check_c16))
